@@ -74,6 +74,11 @@ claim("C09", "lockset + dominance rules on every write of the step state, inform
       "waiting to running in the same critical section, every entry into waiting is made in the critical section that tested the input-available flag, and the detector and the hand-overs run under the run lock (C09.R1-R3). "
       "Everything else about timing is not decided.", NOTE)
 
+claim("C10", "dominance gates on Prepare's accepting return, error-propagation path rules over the prepare path, constant-operand tables for dependency kinds, who-may-call rule for graph construction",
+      "Decides that every reference / stage order / option becomes an edge (shared C02.R1-R3), that the single accepting return of Prepare is dominated by the success of every preparation stage and by the acyclicity test, "
+      "that every error obtained in the prepare path is tested and propagated, that each tag maps to its dependency kind, that only the tabled prepare functions build the graph, and that missing required / incompatible inputs are errors (C10.R0-R4). "
+      "Correctness of Expression.Dependencies/Type, HasCycles and ValidateCompatibility is not decided.", NOTE)
+
 ALL = ["C%02d" % i for i in range(1, 21)]
 for pid in ALL:
     if pid not in P:
